@@ -63,6 +63,10 @@ checks = {
    technique="exhaustive sign-table enumeration on trilinear lookup fields + bounded analytic families through the real dual-contouring renderers",
    text="DualContouringV1 (no simplification, LockVertices) and DualContouringV2 (default, FarAway 0.25, CenterPush 0.1): every one of the 2^8 sign tables of a 2x2x2 interior corner block and 2^12 of a 3x2x2 block (all orientations and settings thorough) as trilinear lookup fields with a positive boundary layer; 18 analytic shapes (smooth, sharp, rotated, CSG, six crescents, cubes/spheres with faces exactly on lattice points at non-dyadic cell sizes) in enlarged sampling cubes at 3-7 resolutions. Oracle: welded directed-edge balance, positive volume, every vertex inside the sampled box and with |f(v)| <= one cell diagonal, two consecutive runs identical.",
    note="settings with locking/clamping off are outside the property and not run; |f(v)| <= diagonal is a necessary condition for CSG shapes"),
+ "C04": dict(engine="E", design="3/C04",
+   technique="small-scope exhaustive enumeration of simple polygons x query points, three-way comparison with an exact-predicate oracle",
+   text="Every simple polygon with <=5 (6 thorough) vertices on the 4x4 integer grid in both orientations (25 620 quick), plus 96 family polygons (combs, staircases, n-gons 3..64 incl. the hexagon of obj.Hex2D, slivers of width 2^-10, plates with a step on the centre line; reversed, centred, translated to negative coordinates, scaled by 2^-7 and 2^9), each queried on the quarter-integer lattice over the box +-1, on EVERY corner/centre coordinate of the quadtree boxes returned by the public Boxes() and those +-1 ulp, on every vertex level +-1 ulp and 1000 sizes away (about 4 800 points per polygon): Polygon2D vs Mesh2DSlow vs an oracle with exact orientation predicates (float filter, big.Rat fallback) for inside/outside and float64 segment distance (1e-9).",
+   note="points exactly on the boundary only need |value| <= 1e-9; one tolerance-band class is a recorded known finding"),
 }
 props = [json.loads(l) for l in open(os.path.join(V, "properties.jsonl"))]
 pending_reason = "check not built yet in this session (work in progress, see DESIGN.md section 3 for the planned bounded-exhaustive check)"
